@@ -200,7 +200,26 @@ func PointInRings(p P, rings [][]P, minVerts int) Status {
 // DistPointSeg returns the Euclidean distance from p to closed segment ab in
 // float64, computed with 200-bit intermediate precision.
 func DistPointSeg(p, a, b P) float64 {
-	const prec = 300
+	// precision: enough for the differences and their products to be exact whatever the spread
+	// of the magnitudes (a vertex at 1e200 next to ordinary ones needs far more than 300 bits)
+	prec := uint(300)
+	lo, hi, any := 0, 0, false
+	for _, x := range []float64{p.X, p.Y, a.X, a.Y, b.X, b.Y} {
+		if x == 0 || math.IsInf(x, 0) || math.IsNaN(x) {
+			continue
+		}
+		_, e := math.Frexp(x)
+		if !any || e < lo {
+			lo = e
+		}
+		if !any || e > hi {
+			hi = e
+		}
+		any = true
+	}
+	if w := uint(2*(hi-lo+54) + 64); w > prec {
+		prec = w
+	}
 	bf := func(x float64) *big.Float { return new(big.Float).SetPrec(prec).SetFloat64(x) }
 	sub := func(x, y *big.Float) *big.Float { return new(big.Float).SetPrec(prec).Sub(x, y) }
 	mul := func(x, y *big.Float) *big.Float { return new(big.Float).SetPrec(prec).Mul(x, y) }
